@@ -29,6 +29,15 @@ static void hookFcn(const char *name, const void *)
 }
 #endif
 
+#if defined(RKCOMMON_TASKING_TBB)
+static const char *kBackendName = "tbb";
+#elif defined(RKCOMMON_TASKING_OMP)
+static const char *kBackendName = "omp";
+#elif defined(RKCOMMON_TASKING_INTERNAL)
+static const char *kBackendName = "internal";
+#else
+static const char *kBackendName = "debug";
+#endif
 static std::atomic<int> g_active(0), g_maxActive(0);
 static thread_local int tl_depth = 0;
 static std::atomic<int> g_nextTid(0);
@@ -89,6 +98,7 @@ static void runSeq(const Seq &s, long k)
 #endif
   int before      = numTaskingThreads();
   VH_CHECK(before == 0, "C13:numTaskingThreads:before-init", "numTaskingThreads() == " + std::to_string(before) + " before any initialisation (expected 0)", ctx);
+  int prevLimit = 0;
   for (size_t i = 0; i < s.inits.size(); ++i) {
     int n = s.inits[i];
     initTaskingSystem(n);
@@ -132,8 +142,25 @@ static void runSeq(const Seq &s, long k)
         });
     }
     int mx = g_maxActive.load();
-    if (mx > limit)
-      vh::violation("C13:parallel_for:more-threads-than-configured", std::to_string(mx) + " threads were inside parallel_for bodies at the same time, limit " + std::to_string(limit), c2);
+    if (mx > limit) {
+      // Is the excess persistent, or only a transient right after the limit was lowered?
+      // (TBB applies a lowered max_allowed_parallelism lazily: workers still inside the arena
+      // may take a few tasks of the next loop.)  Re-measure with a fresh loop 20 ms later.
+      bool lowered = i > 0 && prevLimit > limit;
+      std::this_thread::sleep_for(std::chrono::milliseconds(20));
+      g_maxActive.store(0);
+      parallel_for(50L * eff + 7, [&](long) {
+        BodyScope b;
+        spinUs(s.bodyUs);
+      });
+      int mx2 = g_maxActive.load();
+      std::string how = std::to_string(mx) + " threads were inside parallel_for bodies at the same time, limit " + std::to_string(limit) + "; a second loop 20 ms later ran on at most " + std::to_string(mx2);
+      if (mx2 <= limit && lowered && mx <= prevLimit)
+        vh::violation(std::string("C13:parallel_for:transient-excess-right-after-lowering-limit:") + kBackendName, how + " (previous limit " + std::to_string(prevLimit) + ")", c2);
+      else
+        vh::violation("C13:parallel_for:more-threads-than-configured", how, c2);
+    }
+    prevLimit = limit;
     vh::maxi("max_active_seen", mx);
     if (limit >= 2) {
       vh::count("loops_with_limit_ge_2");
